@@ -44,7 +44,9 @@ RAND = {"C01": {"quick": (0, 30), "thorough": (0, 400)},
         "C08": {"quick": (4000, 60), "thorough": (4000, 900)},
         "C09": {"quick": (5000, 20), "thorough": (5000, 150)},
         "C10": {"quick": (6000, 100), "thorough": (6000, 1500)},
-        "C19": {"quick": (7000, 30), "thorough": (7000, 300)}}
+        "C19": {"quick": (7000, 30), "thorough": (7000, 300)},
+        # directory checks: the same contents in both tiers (a replay materialises the recorded tree from them)
+        "C03": {"any": (8000, 12)}, "C16": {"any": (8100, 12)}, "C15": {"any": (8200, 12)}}
 
 
 def prepare_corpus(pid=None, tier=None):
@@ -54,8 +56,8 @@ def prepare_corpus(pid=None, tier=None):
     shutil.rmtree(out, ignore_errors=True)
     os.makedirs(out)
     n = 0
-    if pid in RAND and tier in RAND[pid]:
-        first, count = RAND[pid][tier]
+    if pid in RAND and (tier in RAND[pid] or "any" in RAND[pid]):
+        first, count = RAND[pid].get(tier) or RAND[pid]["any"]
         for k in range(first, first + count):
             with open(os.path.join(out, "g_%s_%05d.sol" % (RAND_TAG, k)), "wb") as f:
                 f.write(randsol.program(RAND_TAG, k).encode("utf-8"))
@@ -240,7 +242,7 @@ def replay(chk, pid, path):
         tpath = os.path.join(d, "replay-trace.ndjson")
         scratch = vlib.scratch_dir(pid + "r")
         try:
-            res = vlib.harness(hb, ["replay-dir", cpath, prepare_corpus(), scratch, tpath])
+            res = vlib.harness(hb, ["replay-dir", cpath, prepare_corpus(pid), scratch, tpath])
         finally:
             shutil.rmtree(scratch, ignore_errors=True)
         chk.add_harness(res, count_traces=False)
@@ -758,7 +760,7 @@ def _dir_check(chk, tier, pid):
             beh = beh[::step]
     bpath = os.path.join(d, "behaviours.ndjson")
     vlib.write_ndjson(bpath, beh)
-    corpus = prepare_corpus()
+    corpus = prepare_corpus(pid)
     tpath = os.path.join(d, "trace.ndjson")
     scratch = vlib.scratch_dir(pid)
     try:
@@ -876,7 +878,7 @@ def check_c15(chk, tier):
         sched = sched[:200] + sched[200::(len(sched) // 5800 + 1)]
     spath = os.path.join(d, "schedules.ndjson")
     vlib.write_ndjson(spath, sched)
-    corpus = prepare_corpus()
+    corpus = prepare_corpus("C15")
     nfiles = "12" if tier == "quick" else "40"
     bpath = os.path.join(d, "baseline.json")
     # the baseline comes from its own fresh process
@@ -1140,7 +1142,13 @@ def _c18_execute(chk, sb, hist):
         for mode, via in (("full", "flag"), ("one", "flag"), ("none", "flag"), ("full", "toml"), ("one", "toml"), ("none", "toml"), ("full", "default")):
             code, err = bindrive.run_solstat(sb, cwds["other"], argsof("other", mode, via))
             if code != 0:
-                raise ToolError("clean run (%s, %s) failed: exit %s %s" % (mode, via, code, err))
+                # a run on a valid tree from a clean working directory that does not exit 0 is an observation like any
+                # other (RunFs!RunAllowed rejects it); without the clean reports the histories cannot be judged
+                recs.append({"k": "run", "cwd": "other", "mode": mode, "via": via, "step": 1, "init": {c: "absent" for c in cwds},
+                             "history": [["other", mode, via]], "stale": "absent", "stderr": err[-200:],
+                             "obs": {"exit": code, "changed": [], "report_is_clean": False,
+                                     "report_path": os.path.relpath(rfile, root)}})
+                return recs
             if not os.path.exists(rfile):
                 # a successful run from a clean directory must create the report, even an empty one
                 chk.violate("runfs:no-report-created:mode=%s:via=%s" % (mode, via),
